@@ -26,7 +26,8 @@ def cases(tier, seed):
     from vlib.props.c08 import nest_with_windows
     for i in range(250 if tier == "thorough" else 40):
         out.append({"cls": "combinator-with-window", "spec": nest_with_windows(random.Random("c07w/%s/%d" % (seed, i)))})
-    return out
+    from vlib import gen2
+    return out + gen2.appended(tier, seed, "c07", ["A1", "A2", "A3", "A4", "A6"], 80, 500)
 
 
 def run_case(case):
